@@ -9,8 +9,30 @@ use serde_json::Value;
 
 pub struct Episode {
     pub n: usize,
-    pub tys: &'static str, // "both" | "lut" | "lutn"
+    pub tys: &'static str, // "both" | "lut" | "lutn" | "two"
     pub ops: Vec<Value>,
+}
+
+/// Rough cost of validating an episode (used only to split traces into balanced chunks)
+pub fn weight(prop: &str, e: &Episode) -> usize {
+    let base = e.ops.len() * (1 + (1usize << e.n) / 16);
+    if prop == "C04" {
+        let mut w = base;
+        for op in &e.ops {
+            if op["op"] == "canon" {
+                w += match (op["kind"].as_str().unwrap_or(""), e.n) {
+                    ("npn", n) if n >= 6 => 4000,
+                    ("npn", 5) => 400,
+                    ("p", n) if n >= 7 => 1500,
+                    ("p", 6) => 150,
+                    (_, n) if n >= 7 => 200,
+                    _ => 10,
+                };
+            }
+        }
+        return w;
+    }
+    base
 }
 
 pub fn generate(prop: &str, tier: &str, seed: u64) -> Vec<Episode> {
